@@ -24,7 +24,7 @@ from . import t3
 from . import t5
 
 ROOT = os.path.dirname(os.path.dirname(os.path.dirname(os.path.abspath(__file__))))
-SCALARS = ("k", "k1", "k2", "k3", "k4")
+SCALARS = ("k", "k1", "k2", "k3", "k4", "g")
 
 GETTERS = ["x", "y", "rho", "phi", "rho2", "z", "theta", "eta", "costheta", "cottheta", "mag", "mag2", "t", "t2", "tau",
            "tau2", "beta", "gamma", "rapidity", "px", "py", "pt", "pt2", "pz", "pseudorapidity", "p", "p2", "E", "e",
@@ -39,7 +39,7 @@ UNARY = {
     "rotateY": "{v}.rotateY(k)", "rotate_euler_default": "{v}.rotate_euler(k1, k2, k3)",
     "rotate_nautical": "{v}.rotate_nautical(k1, k2, k3)", "rotate_quaternion": "{v}.rotate_quaternion(k1, k2, k3, k4)",
     "boostX_beta": "{v}.boostX(beta=k)", "boostY_beta": "{v}.boostY(beta=k)", "boostZ_beta": "{v}.boostZ(beta=k)",
-    "boostX_gamma": "{v}.boostX(gamma=k)", "boostY_gamma": "{v}.boostY(gamma=k)", "boostZ_gamma": "{v}.boostZ(gamma=k)",
+    "boostX_gamma": "{v}.boostX(gamma=g)", "boostY_gamma": "{v}.boostY(gamma=g)", "boostZ_gamma": "{v}.boostZ(gamma=g)",
     "boostX_pos": "{v}.boostX(k)", "to_beta3": "{v}.to_beta3()", "is_timelike": "{v}.is_timelike()",
     "is_spacelike": "{v}.is_spacelike()", "is_lightlike": "{v}.is_lightlike()", "is_timelike_tol": "{v}.is_timelike(k)",
     "is_spacelike_tol": "{v}.is_spacelike(tolerance=k)", "np_absolute": "np.absolute({v})", "np_square": "np.square({v})",
